@@ -554,13 +554,14 @@ class Powertrain:
                     ).take(0)
 
             if isinstance(element, MotorBase):
-                interpolation_function = interp1d(
-                    x=[instant.to('sec').value for instant in self.time],
-                    y=element.time_variables['pwm']
-                )
-                data.loc[element.name, 'pwm'] = interpolation_function(
-                    target_time.to('sec').value
-                ).take(0)
+                if 'pwm' in variables:
+                    interpolation_function = interp1d(
+                        x=[instant.to('sec').value for instant in self.time],
+                        y=element.time_variables['pwm']
+                    )
+                    data.loc[element.name, 'pwm'] = interpolation_function(
+                        target_time.to('sec').value
+                    ).take(0)
 
                 if 'electric current' in variables:
                     if element.electric_current_is_computable:
@@ -589,15 +590,15 @@ class Powertrain:
                         'tangential force' in variables:
                     variable_list.append('tangential force')
                     unit_list.append(force_unit)
-                    if isinstance(element, GearBase):
-                        if element.bending_stress_is_computable and \
-                                'bending stress' in variables:
-                            variable_list.append('bending stress')
-                            unit_list.append(stress_unit)
-                            if element.contact_stress_is_computable and \
-                                    'contact stress' in variables:
-                                variable_list.append('contact stress')
-                                unit_list.append(stress_unit)
+                if isinstance(element, GearBase):
+                    if element.bending_stress_is_computable and \
+                            'bending stress' in variables:
+                        variable_list.append('bending stress')
+                        unit_list.append(stress_unit)
+                    if element.contact_stress_is_computable and \
+                            'contact stress' in variables:
+                        variable_list.append('contact stress')
+                        unit_list.append(stress_unit)
 
                 for variable, unit in zip(variable_list, unit_list):
                     interpolation_function = interp1d(
